@@ -16,6 +16,9 @@ Decided:
               lets a put through that the limit forbids.
   FLOW-C24f   the size admitted is the size stored: every prepare_canonical_payload* call whose result length enters the
               capacity comparison is also a source of WalEntryData.payload (the check and the storage share one buffer).
+  MPT-C24g   the usage counter moves with the data: both WAL-growth paths store cached_payload_end as itself plus delta (a
+             recomputation from the not-yet-adjusted TOC yields a usage that is too low, and the guard admits a put that
+             does not fit). Same computation as the handle-position clause of COVER-C02d.
 Not decided: the value-level bound over histories. Untriaged candidate (not armed): enable_vec() and the vec manifest
 dimension are stored before the capacity check, so a rejected put is not entirely without trace."""
 from . import lib
@@ -110,6 +113,9 @@ def seed_coverage(ctx, F):
 
 def run(ctx):
     seed_coverage(ctx, ctx.facts())
+    from . import c02
+    ctx.rule('MPT-C24g', 'the usage counter (cached_payload_end) moves by delta with the data in both WAL-growth paths (shared with COVER-C02d)')
+    c02.handle_positions_moved(ctx, ctx.facts(), 'MPT-C24g', only=('cached_payload_end',))
     ctx.rule('GUARD-C24b', 'every WAL append in put_internal is dominated by projected <= capacity_limit(); failing edge -> CapacityExceeded')
     ctx.rule('COUPLE-C24a', 'the usage counter read by the capacity guard is advanced on put_internal\'s own acknowledged path (not only at commit)')
     ctx.rule('AGREE-C24d', 'capacity_limit = ticket capacity | tier capacity; cached_payload_end monotone in apply_records')
